@@ -393,6 +393,18 @@ func (a *BitAnalyzer) inlineCall(call *ssa.Call, w int) BitVec {
 	}
 	sub := NewBitAnalyzer(callee)
 	sub.depth = a.depth + 1
+	// constant arguments are bound to the callee's parameters, so masks and shift counts
+	// that depend on them fold (SetBitField(octet, 4, 2, v): the mask and the shift are constants)
+	for pi, prm := range callee.Params {
+		if pi < len(call.Call.Args) {
+			if k, ok := a.P.Const(call.Call.Args[pi]); ok && widthOf(prm.Type()) > 0 {
+				if sub.P.Bind == nil {
+					sub.P.Bind = map[ssa.Value]ssa.Value{}
+				}
+				sub.P.Bind[prm] = ssa.NewConst(constant.MakeInt64(k), prm.Type())
+			}
+		}
+	}
 	rb := sub.Bits(ret)
 	if rb == nil || len(rb) != w {
 		return nil
